@@ -63,6 +63,38 @@ def py_ruffini(p, z):
     return py_trim(q)
 
 
+ROOT_OF_UNITY = 0x16a2a19edfe81f20d09b681922c813b4b63683508c2280b93829971f439f0d2b
+
+
+def py_transform(kind, k, v):
+    """the mathematical definition, independent of the Lean model: evaluation of the polynomial with coefficient list `v`
+    (any length) on the subgroup / on the coset 7*H; for the inverse kinds, the unique polynomial of degree < n that takes the
+    values `v` reduced modulo X^n - 1 (i.e. index i folded onto i mod n)"""
+    from props.common import hash_list
+    n = 1 << k
+    w = pow(ROOT_OF_UNITY, 1 << (32 - k), R)
+    folded = [0] * n
+    for i, x in enumerate(v):
+        folded[i % n] = (folded[i % n] + x) % R
+    if kind in ("fft", "cfft"):
+        g = 7 if kind == "cfft" else 1
+        # evaluation of the ORIGINAL polynomial (not the folded one) at g*w^i; for g = 1 folding does not change the values,
+        # for the coset the code scales coefficient i by g^i before folding
+        if kind == "cfft":
+            scaled = [x * pow(g, i, R) % R for i, x in enumerate(v)]
+            folded = [0] * n
+            for i, x in enumerate(scaled):
+                folded[i % n] = (folded[i % n] + x) % R
+        out = [sum(c * pow(w, i * j, R) for j, c in enumerate(folded)) % R for i in range(n)]
+    else:
+        wi, ni = inv(w), inv(n)
+        out = [sum(c * pow(wi, i * j, R) for j, c in enumerate(folded)) * ni % R for i in range(n)]
+        if kind == "cifft":
+            gi = inv(7)
+            out = [x * pow(gi, i, R) % R for i, x in enumerate(out)]
+    return "n=%d h=%s head=%s" % (len(out), hx(hash_list(out)), ",".join(hx(x) for x in out[:3]))
+
+
 def fft_cases(rng, tier):
     out = []
     maxk = 12 if tier == "quick" else 14
@@ -79,12 +111,27 @@ def fft_cases(rng, tier):
             tags = ["fft-" + kind, "len<n" if ln < n else ("len=n" if ln == n else "len>n"), "threads=%d" % threads]
             if k >= 12:
                 tags.append("n>=2^12")
-            out.append({"line": "fft %s %d %d %s" % (kind, n, threads, lst(v)), "tags": tags})
+            c = {"line": "fft %s %d %d %s" % (kind, n, threads, lst(v)), "tags": tags}
+            if k <= 5 and (kind in ("fft", "cfft") or ln <= n):
+                c["expect_prefix"] = py_transform(kind, k, v)
+            out.append(c)
+    # inputs much longer than the domain (reduced modulo X^n - 1): 2n, 2n+1, 3n, 5n+3, for all four transforms
+    for k in range(0, 9 if tier == "quick" else 11):
+        n = 1 << k
+        for ln in (2 * n, 2 * n + 1, 3 * n, 5 * n + 3):
+            for kind in (["fft", "cfft"] if tier == "quick" and k > 4 else ["fft", "ifft", "cfft", "cifft"]):
+                v = vec(rng, ln, rng.below(2))
+                if v[-1] == 0:
+                    v[-1] = 1 + rng.below(1000)
+                c = {"line": "fft %s %d %d %s" % (kind, n, rng.choice([1, 4]), lst(v)), "tags": ["fft-" + kind, "len>2n"]}
+                if k <= 5 and kind in ("fft", "cfft"):     # an evaluation vector longer than the domain has no defined meaning
+                    c["expect_prefix"] = py_transform(kind, k, v)
+                out.append(c)
     # every pool size across the parallel thresholds
     sizes = [1 << 12] if tier == "quick" else [1 << 11, 1 << 12, 1 << 13, 1 << 14]
     for n in sizes:
         v = vec(rng, n)
-        for threads in (range(1, 18) if tier != "quick" else [1, 3, 4, 5, 17]):
+        for threads in range(1, 18):
             out.append({"line": "fft fft %d %d %s" % (n, threads, lst(v)), "tags": ["fft-pool-sweep", "threads=%d" % threads]})
     return out
 
